@@ -103,6 +103,10 @@ class Worker:
                     res = fct(*args, **kwargs)
                     if return_dict is not None:
                         return_dict[return_key] = res
+                except Exception:
+                    # flag the failure before `task_done()` can release a waiting `join_tasks()`
+                    self.exit.set()
+                    raise
                 finally:
                     self.tasks.task_done()
         except Exception:
